@@ -444,6 +444,22 @@ fn pass1(stmts: &[St], cursor: &mut Option<u32>, env: &mut HashMap<String, i64>)
 	Some(())
 }
 
+/// pass 1 for damaged programs: keeps going, first definition of a name wins
+fn pass1_lenient(stmts: &[St], cursor: &mut Option<u32>, env: &mut HashMap<String, i64>)
+{
+	for st in stmts
+	{
+		match st
+		{
+			St::Addr(a) => *cursor = Some(*a),
+			St::Label(n) => if let Some(c) = cursor {env.entry(n.clone()).or_insert(*c as i64);},
+			St::Const(n, e) => if let Some(v) = e.eval(env) {env.entry(n.clone()).or_insert(v);},
+			St::Include(_, body) => pass1_lenient(body, cursor, env),
+			_ => if let Some(c) = cursor.as_mut() {*c = c.saturating_add(st_size(st, *c));},
+		}
+	}
+}
+
 /// pass 2: bytes
 fn pass2(stmts: &[St], cursor: &mut Option<u32>, env: &HashMap<String, i64>, image: &mut BTreeMap<u32, u8>) -> Option<()>
 {
@@ -886,7 +902,12 @@ fn abstract_form(stmts: &[St], env: &HashMap<String, i64>) -> Option<String>
 					(Some(v), 2) => u16::try_from(v).ok().map(|x| x.to_le_bytes().to_vec()),
 					(Some(v), _) => u32::try_from(v).ok().map(|x| x.to_le_bytes().to_vec()),
 					(None, _) => None,
-				}.unwrap_or_else(|| vec![0; *k as usize]);
+				};
+				// the symbols are defined but the value does not fit: outside the abstract language (a range diagnostic)
+				let mut names = Vec::new();
+				e.names(&mut names);
+				if bytes.is_none() && names.iter().all(|n| env.contains_key(n)) {return None;}
+				let bytes = bytes.unwrap_or_else(|| vec![0; *k as usize]);
 				format!("E:{k}:{d}:{}", hex(&bytes))
 			},
 			St::Dstr(s) => format!("R:{}", hex(s.as_bytes())),
@@ -896,6 +917,9 @@ fn abstract_form(stmts: &[St], env: &HashMap<String, i64>) -> Option<String>
 			{
 				let d = deps_of(ins.expr().unwrap(), &mut ids, &mut id);
 				let mut bytes = here.and_then(|a| ins.value(a, env)).map(|i| enc(&i)).unwrap_or_default();
+				let mut names = Vec::new();
+				ins.expr().unwrap().names(&mut names);
+				if bytes.is_empty() && here.is_some() && names.iter().all(|n| env.contains_key(n)) {return None;}
 				if bytes.is_empty() {bytes = vec![0; ins.size() as usize];}
 				format!("E:{}:{d}:{}", ins.size(), hex(&bytes))
 			},
@@ -963,7 +987,7 @@ fn damage(rng: &mut Rng, stmts: &mut Vec<St>) -> &'static str
 		_ =>
 		{
 			let at = rng.below(stmts.len() as u64 + 1) as usize;
-			stmts.insert(at, St::Align(*rng.pick(&[0u32, 1, 2, 4, 64, 0x8000_0000])));
+			stmts.insert(at, St::Align(*rng.pick(&[0u32, 1, 2, 4, 64, 4096])));
 			"align"
 		},
 	}
@@ -982,7 +1006,7 @@ fn check_layout_model(cx: &mut Cx, stmts: &[St], env: &HashMap<String, i64>, pro
 	let model = cx.model.ask(&format!("layout run {abs}"));
 	let model_c = if model == "fail PANIC" {"PANIC".to_owned()} else {model.clone()};
 	let real_c = if real.starts_with("PANIC") {"PANIC".to_owned()} else {real.clone()};
-	cx.report.hit(&format!("layout model: {}", real_c.split(' ').take(2).collect::<Vec<_>>().join(" ").chars().take(14).collect::<String>().split(':').next().unwrap_or("")));
+	cx.report.hit(&format!("layout model: {}", if real_c.starts_with("ok") {"ok".to_owned()} else {real_c.clone()}));
 	// kinds of failure are compared only coarsely: both fail, or both succeed with the same image
 	let agree = if real_c.starts_with("ok ") || model_c.starts_with("ok ") {real_c == model_c} else {true};
 	if !agree {cx.report.disagree("model.layout.run", format!("layout {abs} | {}", project.to_input()), model, real);}
@@ -1338,7 +1362,11 @@ non-trivial = non-empty image; distinct = distinct images".to_owned();
 					// damaged variants: only model vs implementation (success/failure and image), no reference
 					let mut st = gen.stmts.clone();
 					let what = damage(&mut rng, &mut st);
-					if abstract_form(&st, &gen.env).is_some()
+					// symbol values of the damaged program (first definition wins, as far as pass 1 gets)
+					let mut denv = HashMap::new();
+					let mut dcur = None;
+					let _ = pass1_lenient(&st, &mut dcur, &mut denv);
+					if abstract_form(&st, &denv).is_some()
 					{
 						cx.report.hit(&format!("damage: {what}"));
 						let mut files = Vec::new();
@@ -1347,7 +1375,7 @@ non-trivial = non-empty image; distinct = distinct images".to_owned();
 						let mut all = vec![("main.asm".to_owned(), main.into_bytes())];
 						all.extend(files);
 						let p = Project{files: all};
-						check_layout_model(cx, &st, &gen.env, &p, &dir, None);
+						check_layout_model(cx, &st, &denv, &p, &dir, None);
 						cx.report.cases(1);
 					}
 				}
